@@ -484,6 +484,7 @@ fn replay<T: Elem>(lines: &[String], slots: usize) -> (usize, Vec<Value>) {
         vkit::mark(bi);
         let beh: Value = serde_json::from_str(line).expect("behaviour json");
         let base = ledger::snap();
+        crate::xmodad::AllocTrace::begin();
         let mut w = World::<T>::new(slots);
         let mut failed = None;
         for (si, st) in beh.as_array().unwrap().iter().enumerate() {
@@ -499,6 +500,7 @@ fn replay<T: Elem>(lines: &[String], slots: usize) -> (usize, Vec<Value>) {
                 failed = Some((beh.as_array().unwrap().len(), msg));
             }
         }
+        crate::xmodad::AllocTrace::end(failed.is_none());
         if let Some((si, msg)) = failed {
             failures.push(json!({"behaviour": bi, "step": si, "msg": msg, "elem": T::KIND, "beh": beh}));
             if failures.len() >= 20 {
@@ -608,6 +610,7 @@ pub fn main(args: &[String]) {
             *PLUGIN_VEC.lock().unwrap() = Some((lib, addr));
         }
     }
+    crate::xmodad::AllocTrace::start_from_args(args);
     let mode = args[0].as_str();
     let path = args.get(1).cloned().unwrap_or_default();
     let elem = vkit::arg_after(args, "--elem").unwrap_or_else(|| "heavy".into());
@@ -630,7 +633,8 @@ pub fn main(args: &[String]) {
                     std::fs::write(&f, serde_json::to_string(first).unwrap()).unwrap();
                 }
             }
-            vkit::summary("vec-replay", lines.len(), steps, &failures, json!({"elem": elem}));
+            let at = crate::xmodad::AllocTrace::finish();
+            vkit::summary("vec-replay", lines.len(), steps, &failures, json!({"elem": elem, "alloc_trace_events": at}));
         }
         "trace" => {
             let seed: u64 = vkit::arg_after(args, "--seed").map(|s| s.parse().unwrap()).unwrap_or(1);
